@@ -19,6 +19,14 @@ def sandbox(name):
 
 
 def cleanup(d):
+    # a file system an interrupted fault case left mounted inside the sandbox
+    try:
+        with open("/proc/mounts") as fh:
+            mps = [ln.split()[1] for ln in fh if len(ln.split()) > 1 and ln.split()[1].startswith(d + "/")]
+        for m in sorted(mps, reverse=True):
+            subprocess.run(["umount", "-l", m], stdout=subprocess.DEVNULL, stderr=subprocess.DEVNULL)
+    except Exception:
+        pass
     shutil.rmtree(d, ignore_errors=True)
 
 
